@@ -174,6 +174,8 @@ def jac_items(tier):
     for interp in ("hypercube", "simplex"):
       for units in (1, 2):
         out.append(dict(kind="jac-lattice", sizes=sizes, interpolation=interp, units=units))
+      if len(sizes) >= 2:
+        out.append(dict(kind="jac-lattice", sizes=sizes, interpolation=interp, units=1, form="list"))
   for kp in ([0.0, 1.0], [0.0, 1.0, 3.0], [0.0, 0.1, 1.0, 4.0]):
     for units in (1, 2):
       for cyclic in (False, True):
@@ -208,6 +210,8 @@ def jac_case(item, ctx=None):
     X = rl.input_grid(sizes, fine=True, outside=True)
     Wref = (rl.hypercube_weights if item["interpolation"] == "hypercube" else rl.simplex_weights)(X, sizes)
     xin = tf.constant((X if units == 1 else np.repeat(X[:, None, :], units, axis=1)).astype(np.float32))
+    if item.get("form") == "list":
+      xin = [tf.constant(X[:, k:k + 1].astype(np.float32)) for k in range(X.shape[1])]
     jacs = []
     for kernel in (np.zeros((n, units)), np.arange(n * units, dtype=np.float64).reshape(n, units) - 3.0):
       layer.kernel.assign(kernel.astype(np.float32))
